@@ -182,8 +182,8 @@ class Pack:
         if owner is None:
             return None, None
         q, fn = owner
-        c = self.contract_for(mod.relpath, q)
         cur = interp.contract
+        c = cur if (cur is not None and cur.file == mod.relpath and cur.qualname == q) else self.contract_for(mod.relpath, q)
         if c is None and cur is not None:
             # loop contracts of inlined helpers may be declared on the caller under "helper#k"
             lst = loops_of(fn)
